@@ -142,6 +142,7 @@ fn run_history_inner(cap: usize, start: usize, mode: Mode, hist: u128, len: usiz
             }
         }
         Mode::CloneAt(k) => {
+            let fresh_copy = fork.clone();
             // the clone has seen the same frames as its original: both of its branches must go on
             // exactly where the original's stood (the original is not pulled any more, so the shared
             // pull counter keeps counting for the clone)
@@ -154,7 +155,14 @@ fn run_history_inner(cap: usize, start: usize, mode: Mode, hist: u128, len: usiz
                 step!(a, b, who, &mut r);
                 i += 1;
             }
-            let mut f2 = fork.clone();
+            // (for histories whose bit 2 is set, through clone_from() into a copy of the fresh fork)
+            let mut f2 = if (hist >> 2) & 1 == 0 {
+                fork.clone()
+            } else {
+                let mut t = fresh_copy;
+                t.clone_from(&fork);
+                t
+            };
             if i % 2 == 0 {
                 let (mut a, mut b) = f2.by_ref();
                 while i < len {
